@@ -471,6 +471,9 @@ class Formatter:
                 body = ", ".join(self._literal(v, precedence["literal"]) for v in json["literal"])
                 return f"({body})"
 
+            if not isinstance(json["literal"], string_types):
+                return self._literal(json["literal"], prec)
+
             encoding = ""
             if json.get("encoding"):
                 encoding = json["encoding"].upper()
